@@ -50,7 +50,7 @@ class Ctx:
 CORPUS = ("wcorpus",)
 
 
-def wire_props(ctx, modes, want, floor_impls, only_crates=None):
+def wire_props(ctx, modes, want, floor_impls, only_crates=None, w4_sides=None, prob_sides=None):
     rep = ctx.rep
     u, w, ts, exp = ctx.triples("default", CORPUS)
     n = 0
@@ -60,7 +60,7 @@ def wire_props(ctx, modes, want, floor_impls, only_crates=None):
             continue
         if t.crate != "epserde":
             nd += 1
-        rules_wire.check_triple(t, exp, rep, modes=modes, want=want)
+        rules_wire.check_triple(t, exp, rep, modes=modes, want=want, w4_sides=w4_sides, prob_sides=prob_sides)
         n += 1
         for side in ("ser",) + tuple(modes):
             for p in (t.paths.get(side) or [])[:1]:
@@ -523,7 +523,7 @@ def check_C12(ctx):
     rep.rule("S-WHO", "Error::AlignmentError is constructed only by the slice-backed align and by load_mem's pre-check")
     rep.rule("LOADMEM-PRECHECK", "load_mem rejects types whose native alignment exceeds that of the heap region, before touching the file")
     rep.rule("M1", "unit(T) >= align_of::<T>() and a power of two for the universe of closed zero-copy types (so `multiple of the unit` implies `aligned for the type`)")
-    ts = wire_props(ctx, ("eps",), ("W4",), 56)
+    ts = wire_props(ctx, ("eps",), ("W4",), 56, w4_sides=("eps",))
     u = ctx.universe("default", CORPUS)
     rules_eps.rule_align_guard(u, rep)
     role, ab = rules_eps.slice_align_impl(u)
@@ -538,8 +538,8 @@ def check_C12(ctx):
         rules_align.rule_M1(uu, rep, cname)
     except ExportError as ex:
         rep.add("M1", "universe", "the universe of closed zero-copy types no longer compiles: " + str(ex)[-300:])
-    # the result of every align call on the eps side is propagated
-    rules_err.rule_PERR(u, rep, DESER_SCOPE)
+    # the result of every align call of a reader is propagated
+    rules_err.rule_PERR(u, rep, DESER_SCOPE, only_callees=("align",))
     return ("Guard of the only address-alignment check extracted from all paths of the slice-backed align; dominance of that call over every carve (adjacency in the wire term "
             "of every eps reader); who-may-construct for AlignmentError; unit >= native alignment over a universe of closed types. The per-placement outcome table is not decided.")
 
@@ -551,7 +551,7 @@ def check_C03(ctx):
     rep.rule("RAW-CARVE", "no eps reader builds slices or pointers from the input buffer by hand (from_raw_parts / pointer arithmetic on backend.data)")
     rep.rule("W1/W4(eps)", "the block has the written length (count linked to the length prefix) and is preceded by the alignment point of its unit")
     rep.rule("ALIGN-GUARD", "the alignment point of the slice-backed reader checks the absolute address")
-    ts = wire_props(ctx, ("eps",), ("W1", "W4", "PROB"), 56)
+    ts = wire_props(ctx, ("eps",), ("W1", "W4", "PROB"), 56, w4_sides=("eps",), prob_sides=("eps",))
     u = ctx.universe("default", CORPUS)
     n = rules_eps.rule_eps_borrow(u, ts, rep)
     rep.floor("zero-copy eps paths analysed", n, 20)
